@@ -713,6 +713,12 @@ impl HnswBackend {
     /// This is a stop-the-world operation for writers (and blocks readers while rebuilding).
     fn compact_tombstones(&self) -> Result<usize> {
         let snapshot_guard = self.persistence.as_ref().map(|p| p.snapshot_lock.write());
+        // Writers (insert, delete, update_metadata, batch_delete) look up internal slot numbers
+        // in a read-only preflight under `write_gate` and apply them later under the same gate.
+        // Compaction renumbers the slots, so it must hold the gate as well: with persistence
+        // the exclusive snapshot lock already keeps in-flight writers out, but a backend
+        // without persistence has no snapshot lock at all.
+        let _write_gate_guard = self.write_gate.lock();
 
         // Capture index construction params before we swap it.
         let (dimension, capacity, distance, m, ef_construction, disable_norm_check) = {
